@@ -5,6 +5,7 @@ target context: `a = _Assign(node, slice_proxy)`; inherited from Migen).  `Cat(x
  (a) comb, x has reset value 5: simulator keeps bits 1:0 of x at 0b01, Verilog drives them to 0
  (b) comb, x.eq(a) before the sliced assignment: simulator keeps a[1:0], Verilog drives 0
  (c) sync, register p with reset value 5: never visible in the Verilog design (p is a wire of slice_proxy, initial value 0)
+(without a working name tracer - Python >= 3.11 - the proxy is called `complexslicelowerer` instead of `slice_proxy`)
  (d) sync, the same Cat sliced at two places (one inside p3): p3 is declared wire, assigned in the always block AND continuously driven
 run: PYTHONPATH=/repo /venv/bin/python tools/replay_c01_sliced_cat_target.py     exit 0 = defects present, 1 = not reproduced"""
 import re
@@ -19,10 +20,12 @@ class A(Module):
 class C(Module):
     def __init__(self):
         self.v = S("v", 5); self.p = S("p", 4, reset=5); self.q = S("q", 5); self.o = S("o", 9)
+        self.clock_domains.cd_sys = ClockDomain("sys")
         self.sync += Cat(self.p, self.q)[2:7].eq(self.v); self.comb += self.o.eq(Cat(self.p, self.q))
 class E(Module):
     def __init__(self):
         self.v = S("v", 5); self.w = S("w", 3); self.p3 = S("p3", 4); self.q3 = S("q3", 5); self.o = S("o", 9)
+        self.clock_domains.cd_sys = ClockDomain("sys")
         self.sync += Case(self.w, {1: Cat(self.p3, self.q3)[3:6].eq(self.v), 2: Cat(self.p3, self.q3)[0:2].eq(self.w)}); self.comb += self.o.eq(Cat(self.p3, self.q3))
 ok = []
 for other in (False, True):
@@ -36,18 +39,18 @@ for other in (False, True):
     print("(b)" if other else "(a)", "simulator (x, y) for v = 0b11111, a = 0b0110:", [(bin(x), bin(y)) for x, y in seen]); print("    emitted:", " | ".join(body))
     # Verilog: slice_proxy = 0 with bits 6:2 = v -> {y, x} = 9'b0_0111_1100 -> x = 0b1100, y = 0b00111
     vx = (0b11111 << 2) & 0xf; print("    Verilog x =", bin(vx), "(bits 1:0 come from slice_proxy's default 0)")
-    ok.append("assign {y, x} = slice_proxy" in txt and seen[0][0] != vx)
+    ok.append(re.search(r"\{y, x\} <?= \w+;", txt) is not None and seen[0][0] != vx)
 d = C(); seen = []
 def tb():
     seen.append((yield d.o)); yield; seen.append((yield d.o))
 run_simulation(d, tb())
 d2 = C(); txt = convert(d2, ios={d2.v, d2.o}, name="top").main_source
-decl = [l.strip() for l in txt.splitlines() if re.search(r"\b(p|slice_proxy\d*)\b", l) and re.match(r"\s*(reg|wire|assign)", l)]
+decl = [l.strip() for l in txt.splitlines() if re.search(r"\b(p|slice_proxy\d*|complexslicelowerer\d*)\b", l) and re.match(r"\s*(reg|wire|assign)", l)]
 print("(c) simulator o = Cat(p, q) at power-up and after one clock with v = 0:", [bin(x) for x in seen], "(p holds its reset value 5)"); print("    emitted:", " | ".join(decl))
-ok.append(seen[0] & 0xf == 5 and re.search(r"reg\s+\[8:0\] slice_proxy\d* = 9'd0;", txt) is not None and re.search(r"wire\s+\[3:0\] p;", txt) is not None)
+ok.append(seen[0] & 0xf == 5 and re.search(r"reg\s+\[8:0\] \w+ = 9'd0;", txt) is not None and re.search(r"wire\s+\[3:0\] p;", txt) is not None)
 d2 = E(); txt = convert(d2, ios={d2.v, d2.w, d2.o}, name="top").main_source
 p3 = [l.strip() for l in txt.splitlines() if re.search(r"\bp3\b", l) and not l.startswith("//")]
 print("(d) emitted lines that mention p3:", " | ".join(p3))
-ok.append(re.search(r"wire\s+\[3:0\] p3;", txt) is not None and "p3[1:0] <= w;" in txt and re.search(r"assign \{q3, p3\} = slice_proxy", txt) is not None)
+ok.append(re.search(r"wire\s+\[3:0\] p3;", txt) is not None and "p3[1:0] <= w;" in txt and re.search(r"assign \{q3, p3\} = \w+;", txt) is not None)
 print("reproduced (a, b, c, d):", ok)
 raise SystemExit(0 if all(ok) else 1)
